@@ -42,6 +42,7 @@ from typing import Any
 from .. import e2e
 from ..common import Hang, Rng, hx, watchdog
 from ..runner import Check
+from . import c07
 from . import c09 as base
 from .c07 import Cfg, yaml_safe_json
 
@@ -263,8 +264,6 @@ def build_tree(dc: dict) -> dict[str, dict]:
 
 
 def observe(dc: dict) -> e2e.Result:
-    from .c07 import parser_kwargs  # noqa: F401  (kept for symmetry with c09.e2e_case)
-
     opts = dict(dc["opts"])
     if dc["dkind"] != "tree":
         ift, doc = build_single_doc(dc)
@@ -439,7 +438,10 @@ def check_dcase(ck: Check, camp, dc: dict) -> None:
                 if culprit not in reported:
                     reported.add(culprit)
                     cm = module_of_file(culprit) if not pkg.single else []
-                    ck.fail({**cls0, "mechanism": "import_error", "trigger": import_trigger(dc, cm), "error": type(exc).__name__}, dc,
+                    trig = import_trigger(dc, cm)
+                    if isinstance(exc, TypeError) and "already defined" in str(exc) and c07.nfkc_unstable(files.get("out.py" if pkg.single else culprit or "", ""), []):
+                        trig = "nfkc_member_name"  # known finding D21: two member names that are one identifier after NFKC normalisation
+                    ck.fail({**cls0, "mechanism": "import_error", "trigger": trig, "error": type(exc).__name__}, dc,
                             f"importing the emitted module {culprit} raised {type(exc).__name__}: {str(exc)[:160]}")
         if reported:
             camp.hit("import_error")
@@ -662,7 +664,7 @@ def campaign_steps(ck: Check, n: int) -> None:
         flat = [f for fields in mods for f in fields]
         for f, tok in zip(flat, impl.split(" | ")):
             camp.hit(f"{'list' if isinstance(f['default'], list) else 'scalar'}:{'alias' if f['alias'] else 'no_alias'}:{tok.split(' ')[0]}")
-        # the same value looked up from two fields with different aliases: the case object identity matters for
+        # the same value looked up from fields with different aliases: the case in which object identity matters
         seen: dict[str, set] = {}
         for f in flat:
             for d in f["default"] if isinstance(f["default"], list) else [f["default"]]:
